@@ -57,6 +57,8 @@ func runC19(x *X) {
 	maxHist := x.Pick(3, 4)
 	x.Explore("styles", ExploreOpts{ShardDepth: 2, Bound: fmt.Sprintf("registry histories of <=%d registrations over %d name shapes x every listed name x 7 variants + 5 fixed strings", maxHist, len(shapes))}, func(c *Chooser) {
 		serial := fmt.Sprint(atomic.AddInt64(&c19Serial, 1), "x", x.Shard)
+		// in half of the executions the application registers hand-built, partially filled decorations
+		rawDecors := c.Bool()
 		var hist []string
 		var histKinds []string
 		registered := map[string]decoration.Decoration{}
@@ -71,6 +73,12 @@ func runC19(x *X) {
 				name = fmt.Sprintf(sh.f, serial)
 			}
 			d := customFromMask(7 | 1<<(3+len(hist)))
+			if rawDecors {
+				// a hand-built decoration that was never passed through Populate (only its vertical pieces are set):
+				// still a decoration the application registered
+				d = rawDecorFromFields([]int{7, 8 + len(hist)%2}) // VHeader + VBodyBorder|VBodyInner
+				d.VHeader = fmt.Sprintf("%d", len(hist))
+			}
 			c.Logf("decoration.RegisterDecorationName(%q, custom)", name)
 			decoration.RegisterDecorationName(name, d)
 			registered[name] = d
